@@ -255,8 +255,12 @@ def run(ctx: Ctx) -> None:
     check_direct(ctx, ctx.budget(250, 6000))
     workers = ["asyncio", "trio"]
     if ctx.thorough:
-        check_e2e(ctx, OPENINGS, workers, exhaustive=True)
-        ctx.extra["two_way_splits_exhaustive"] = "all openings, both workers"
+        extra = {"h2c_absent": "asyncio", "h2c_custom": "trio", "h2c_twice": "asyncio"}
+        check_e2e(ctx, [k for k in OPENINGS if k not in extra], workers, exhaustive=True)
+        for k, w in extra.items():
+            check_e2e(ctx, [k], [w], exhaustive=True)
+            check_e2e(ctx, [k], [x for x in workers if x != w], exhaustive=False)
+        ctx.extra["two_way_splits_exhaustive"] = "all openings on both workers (the additional HTTP2-Settings payloads h2c_absent / h2c_custom / h2c_twice on one worker each, sampled on the other)"
     else:
         # exhaustive two-way splits for the upgrade openings on alternating workers, sampled splits for the rest
         check_e2e(ctx, ["h2c"], ["asyncio"], exhaustive=True)
